@@ -642,6 +642,9 @@ func (fc *FuncCtx) enterLoop(fr *Frame, li *loopInfo, cur *State) *State {
 			if !strings.HasPrefix(k, "$") && !fc.ghostUpdatedIn(fr, li, k) {
 				continue
 			}
+			if strings.HasPrefix(k, "$calls:") && !callsInLoop(li, strings.TrimPrefix(strings.TrimPrefix(k, "$calls:"), "go:")) {
+				continue
+			}
 			if sc, ok := v.(Scalar); ok {
 				nv := Scalar{fc.u.fresh("loop.ghost", sc.Sort), sc.Sort, sc.Typ}
 				if strings.HasPrefix(k, "$calls:") || strings.HasPrefix(k, "$ev:") {
@@ -1099,6 +1102,29 @@ func arrayElementsUsed(a *ssa.Alloc) bool {
 		switch r.(type) {
 		case *ssa.IndexAddr, *ssa.Slice:
 			return true
+		}
+	}
+	return false
+}
+
+func callsInLoop(li *loopInfo, name string) bool {
+	for b := range li.body {
+		for _, ins := range b.Instrs {
+			var cc *ssa.CallCommon
+			switch x := ins.(type) {
+			case *ssa.Call:
+				cc = &x.Call
+			case *ssa.Defer:
+				cc = &x.Call
+			case *ssa.Go:
+				cc = &x.Call
+			}
+			if cc == nil {
+				continue
+			}
+			if s, _ := calleeNames(cc); s == name {
+				return true
+			}
 		}
 	}
 	return false
